@@ -12,7 +12,7 @@ VERIF = os.path.dirname(os.path.dirname(os.path.abspath(__file__)))
 REPO = os.environ.get("VERIF_REPO", "/repo")
 SPECS = os.path.join(VERIF, "specs")
 HARNESS = os.path.join(VERIF, "harness")
-EVID = os.path.join(VERIF, "evidence")
+EVID = os.environ.get("VERIF_EVID") or os.path.join(VERIF, "evidence")
 REPLAYS = os.path.join(EVID, "replays")
 KNOWN = os.path.join(VERIF, "KNOWN_FINDINGS.txt")
 
@@ -149,7 +149,28 @@ def sany(path):
 
 # ----------------------------------------------------------------------------- Go
 
+_modfile = None
+
+
+def harness_modfile():
+    """VERIF_REPO=<dir> points the checks at a scratch copy of the repository (development only: mutation runs);
+    the harness module's `replace` is redirected through an alternate go.mod"""
+    global _modfile
+    if REPO == "/repo":
+        return None
+    if _modfile is None:
+        d = tempfile.mkdtemp(prefix="verif-mod-")
+        txt = open(os.path.join(HARNESS, "go.mod")).read().replace("=> /repo", "=> " + REPO)
+        open(os.path.join(d, "go.mod"), "w").write(txt)
+        shutil.copy(os.path.join(HARNESS, "go.sum"), os.path.join(d, "go.sum"))
+        _modfile = os.path.join(d, "go.mod")
+    return _modfile
+
+
 def go(args, cwd=HARNESS, timeout=900, env=None, check=True, capture=True):
+    mf = harness_modfile()
+    if mf and cwd == HARNESS and args and args[0] in ("build", "run", "test", "vet", "list"):
+        args = [args[0], "-modfile=" + mf] + list(args[1:])
     e = dict(GOENV)
     if env:
         e.update(env)
